@@ -1073,3 +1073,18 @@ Proof.
   rewrite E in R. destruct (calculate (reorder d ls ds cs)) as [|l'|t']; cbn [result_same_up_to_order] in R; try contradiction.
   exists t'. split; [reflexivity|exact R].
 Qed.
+
+(* the retention hypothesis cannot be dropped: a category keeps the flag of the first combo seen, so two
+   rows of one category that disagree on `retained` give a tax sum whose sign depends on their order *)
+Lemma tax_sum_without_consistent_retention_refuted :
+  exists cr c tls tls', Permutation tls tls' /\
+    fold_left (sum_step cr) (map (ct_calc cr c) (base_totals cr c tls)) (zero_of c) <>
+    fold_left (sum_step cr) (map (ct_calc cr c) (base_totals cr c tls')) (zero_of c).
+Proof.
+  exists false, 2%nat,
+    [mkTL (mkA 10000 2) [mkCombo [] [] [] (Some (mkA 10 2)) None false []];
+     mkTL (mkA 10000 2) [mkCombo [] [] [] (Some (mkA 10 2)) None true []]],
+    [mkTL (mkA 10000 2) [mkCombo [] [] [] (Some (mkA 10 2)) None true []];
+     mkTL (mkA 10000 2) [mkCombo [] [] [] (Some (mkA 10 2)) None false []]].
+  split; [apply perm_swap|]. vm_compute. discriminate.
+Qed.
